@@ -85,7 +85,7 @@ def check(ctx):
                         good = y == t[3]
                     else:
                         vs = util.variant_switch(body, dg, x)
-                        good = bool(vs) and vs[3] == cc["dst"]["l"] and vs[1].get(0) == y
+                        good = bool(vs) and vs[3] == cc["dst"]["l"] and vs[1].get(0, vs[2]) == y
                     ok_l = ok_l and good
             ctx.ob("R09.1", f"{k}|commit-retried-until-success", ok_l, body.loc(cb), "the commit is retried until its CAS succeeds (publish never returns with its position uncommitted)")
         else:
